@@ -124,7 +124,7 @@ def main():
         ],
         "checks": checks,
         "not_applicable": na,
-        "notes": "All checks go through /verif/bin/vcheck (built by setup_cmd). Exit 0 held, 1 VIOLATION, 2 harness error. Known findings: /verif/KNOWN_FINDINGS.txt. Before any scheduler-based verdict the scheduler and explorer pass a self-test in the freshly built worker (22 programs with known interleaving sets, deadlock, lost wake-up, livelock, pool/map answers, replay); in the plain and debug builds every 64th case is preceded by unrelated library activity (history independence); free-running -race side passes are sampled and reported separately as sum_race_pass_iterations (DESIGN.md 9.5, 9.7).",
+        "notes": "All checks go through /verif/bin/vcheck (built by setup_cmd). Exit 0 held, 1 VIOLATION, 2 harness error. Known findings: /verif/KNOWN_FINDINGS.txt. Before any scheduler-based verdict the scheduler and explorer pass a self-test in the freshly built worker (26 programs with known interleaving sets, deadlock, lost wake-up, livelock, pool/map answers, a thread blocked outside the scheduler, replay); in the plain and debug builds every 64th case is preceded by unrelated library activity (history independence); free-running -race side passes are sampled and reported separately as sum_race_pass_iterations (DESIGN.md 9.5, 9.7).",
     }
     json.dump(m, open("/verif/MANIFEST.json", "w"), indent=1)
     print("claimed", len(checks), "not_applicable", len(na))
